@@ -22,6 +22,63 @@ Definition benign (o : coutev) : bool :=
   | _ => true
   end.
 
+(* the pending bodies l' come from those of l: same stream and Ctx each, and no id twice if none was *)
+Definition pend_sub (l' l : list cpending) : Prop :=
+  (forall pb', In pb' l' -> exists pb, In pb l /\ pb_id pb' = pb_id pb /\ pb_tag pb' = pb_tag pb) /\
+  (NoDup (map pb_id l) -> NoDup (map pb_id l')).
+
+Lemma pending_same (l l' : list cpending) : l' = l -> pend_sub l' l.
+Proof. intros ->. split; [intros pb H; exists pb; auto | auto]. Qed.
+
+Lemma NoDup_pend_del (l : list cpending) id : NoDup (map pb_id l) -> NoDup (map pb_id (cl_pend_del l id)).
+Proof.
+  induction l as [|y t IH]; cbn [cl_pend_del map]; [auto|]. intro H. inversion H as [|? ? NI ND]; subst.
+  destruct (pb_id y =? id); [exact ND|]. cbn [map]. constructor; [|auto]. intro J. apply NI.
+  apply in_map_iff in J. destruct J as (p & E & J). rewrite <- E. apply in_map. eapply cl_pend_del_In; eassumption.
+Qed.
+
+Lemma pending_del (l : list cpending) id : pend_sub (cl_pend_del l id) l.
+Proof. split; [intros pb H; exists pb; split; [eapply cl_pend_del_In; eassumption | auto] | apply NoDup_pend_del]. Qed.
+
+Lemma pending_put (l : list cpending) x x0 : In x0 l -> pb_id x = pb_id x0 -> pb_tag x = pb_tag x0 -> pend_sub (cl_pend_put l x) l.
+Proof.
+  intros I A B. split.
+  - intros pb H. destruct (cl_pend_put_In _ _ _ H) as [->|H']; [exists x0 | exists pb]; auto.
+  - rewrite cl_pend_put_ids. auto.
+Qed.
+
+Lemma pending_map (l : list cpending) f : (forall pb, pb_id (f pb) = pb_id pb /\ pb_tag (f pb) = pb_tag pb) -> pend_sub (map f l) l.
+Proof.
+  intros Hf. split.
+  - intros pb H. apply in_map_iff in H. destruct H as (q & <- & I). exists q. destruct (Hf q). auto.
+  - rewrite map_map. replace (map (fun x => pb_id (f x)) l) with (map pb_id l); [auto|]. apply map_ext. intro a. symmetry. apply Hf.
+Qed.
+
+Lemma pend_del_not_id (l : list cpending) id pb : NoDup (map pb_id l) -> In pb (cl_pend_del l id) -> pb_id pb <> id.
+Proof.
+  induction l as [|y t IH]; cbn [cl_pend_del map]; [intros _ []|]. intro H. inversion H as [|? ? NI ND]; subst.
+  destruct (pb_id y =? id) eqn:E.
+  - intros J F. apply NI. apply N.eqb_eq in E. rewrite E, <- F. apply in_map, J.
+  - intros [<-|J]; [apply N.eqb_neq, E | apply IH; assumption].
+Qed.
+
+(* what is left of the pending bodies when the one of stream id has been taken off holds no body of the Ctx tag, if the
+   bodies of that Ctx are on stream id *)
+Lemma pend_del_no_tag (l : list cpending) id tag : NoDup (map pb_id l) -> (forall pb, In pb l -> pb_tag pb = tag -> pb_id pb = id) ->
+  forall pb, In pb (cl_pend_del l id) -> pb_tag pb <> tag.
+Proof. intros ND H pb J E. apply (pend_del_not_id l id pb ND J). apply H; [eapply cl_pend_del_In; eassumption | exact E]. Qed.
+
+Lemma cl_pend_del_absent (l : list cpending) id : cl_pend_get l id = None -> cl_pend_del l id = l.
+Proof.
+  induction l as [|y t IH]; cbn [cl_pend_get cl_pend_del]; [reflexivity|]. destruct (pb_id y =? id); [discriminate|]. intro H. rewrite (IH H). reflexivity.
+Qed.
+
+Lemma pend_sub_trans a b c : pend_sub a b -> pend_sub b c -> pend_sub a c.
+Proof.
+  intros [A1 A2] [B1 B2]. split; [|auto]. intros pb H. destruct (A1 _ H) as (p1 & I1 & E1 & F1). destruct (B1 _ I1) as (p0 & I0 & E0 & F0).
+  exists p0. repeat split; congruence.
+Qed.
+
 (* hdrErr only ever holds the error of a malformed response header *)
 Definition herr_ok (h : option cerr) : Prop := forall e, h = Some e -> e = CEMalformed.
 
@@ -122,6 +179,9 @@ Section Eff.
 Context {hstate : Type}.
 Implicit Types c : cconn hstate.
 
+(* the tags the connection still has to answer: queued in `in`, or on the request table *)
+Definition held c (t : N) : Prop := In t (cc_inQ c) \/ In t (map snd (cc_reqQueued c)).
+
 (* c' comes after c: same Ctx objects, each evolved by cev; the queue and the request table have only lost entries;
    the trace has grown by items of P *)
 Record eff (P : coutev -> Prop) (c c' : cconn hstate) : Prop := mkEff {
@@ -141,10 +201,13 @@ Record eff (P : coutev -> Prop) (c c' : cconn hstate) : Prop := mkEff {
   e_wl_stuck : cc_wl_stuck c' = cc_wl_stuck c;
   e_out : exists l, cc_out c' = l ++ cc_out c /\ Forall P l;
   e_outQ : Forall (fun o => benign o = true) (cc_outQ c) -> Forall (fun o => benign o = true) (cc_outQ c');
-  e_pending : forall pb', In pb' (cc_pending c') ->
-              exists pb, In pb (cc_pending c) /\ pb_id pb' = pb_id pb /\ pb_tag pb' = pb_tag pb;
+  e_pending : pend_sub (cc_pending c') (cc_pending c);
   e_w : Wok hstate c c';
-  e_hdrErr : herr_ok (cc_hdrErr c) -> herr_ok (cc_hdrErr c')
+  e_hdrErr : herr_ok (cc_hdrErr c) -> herr_ok (cc_hdrErr c');
+  e_lastErr : cc_lastErr c <> Some CENil -> cc_lastErr c' <> Some CENil;
+  (* markFinished only after the connection has let go of the request *)
+  e_fin : forall t x x', cl_ctx_get c t = Some x -> cl_ctx_get c' t = Some x' -> ct_finished x = false -> ct_finished x' = true ->
+          ~ held c' t /\ forall pb, In pb (cc_pending c') -> pb_tag pb <> t
 }.
 
 Lemma filter_nil_eq {A} (p : A -> bool) : filter p [] = [].
@@ -168,7 +231,7 @@ Proof.
   - exists (fun _ => true). apply filter_true.
   - exists (fun _ => true). apply filter_true.
   - exists []. split; [reflexivity | constructor].
-  - intros pb H. exists pb. auto.
+  - apply pending_same. reflexivity.
 Qed.
 
 Lemma eff_trans P a b c : eff P a b -> eff P b c -> eff P a c.
@@ -185,9 +248,15 @@ Proof.
   - intros A C. destruct (cc_rl_done b) eqn:B; auto.
   - destruct e_out0 as (l1 & H1 & F1), e_out1 as (l2 & H2 & F2). exists (l2 ++ l1). rewrite H2, H1, app_assoc.
     split; [reflexivity | apply Forall_app; auto].
-  - intros pb H. destruct (e_pending1 _ H) as (pb1 & I1 & A1 & B1). destruct (e_pending0 _ I1) as (pb0 & I0 & A0 & B0).
-    exists pb0. repeat split; congruence.
+  - eapply pend_sub_trans; eassumption.
   - eapply W_trans; eassumption.
+  - intros t x z Gx Gz Fx Fz. destruct (e_ctx0 _ _ Gx) as (y & Gy & _). destruct (ct_finished y) eqn:Fy.
+    + destruct (e_fin0 _ _ _ Gx Gy Fx Fy) as [NH NP]. split.
+      * intro H. apply NH. destruct H as [H|H]; [left|right].
+        -- destruct e_inQ1 as [p Hp]. rewrite Hp in H. apply filter_In in H. apply H.
+        -- destruct e_rq1 as [p Hp]. rewrite Hp in H. apply in_map_iff in H. destruct H as (en & <- & H). apply filter_In in H. apply in_map, H.
+      * intros pb Hpb. destruct (proj1 e_pending1 _ Hpb) as (pb1 & I1 & _ & B1). rewrite B1. apply NP, I1.
+    + apply (e_fin1 _ _ _ Gy Gz Fy Fz).
 Qed.
 
 Lemma eff_weaken (P Q : coutev -> Prop) c c' : (forall o, P o -> Q o) -> eff P c c' -> eff Q c c'.
@@ -203,35 +272,18 @@ Lemma eff_frame P c c' l :
   cc_goAway c' = cc_goAway c -> cc_closed c' = cc_closed c -> cc_wl_done c' = cc_wl_done c -> cc_rl_done c' = cc_rl_done c ->
   cc_rl_stuck c' = cc_rl_stuck c -> cc_wl_stuck c' = cc_wl_stuck c ->
   cc_hdrStream c' = cc_hdrStream c -> cc_hdrStatus c' = cc_hdrStatus c -> cc_hdrErr c' = cc_hdrErr c ->
-  cc_hdrEndStream c' = cc_hdrEndStream c ->
+  cc_hdrEndStream c' = cc_hdrEndStream c -> cc_lastErr c' = cc_lastErr c ->
   (Forall (fun o => benign o = true) (cc_outQ c) -> Forall (fun o => benign o = true) (cc_outQ c')) ->
-  (forall pb', In pb' (cc_pending c') -> exists pb, In pb (cc_pending c) /\ pb_id pb' = pb_id pb /\ pb_tag pb' = pb_tag pb) ->
+  pend_sub (cc_pending c') (cc_pending c) ->
   cc_out c' = l ++ cc_out c -> Forall P l -> eff P c c'.
 Proof.
-  intros H1 H2 H3 H4 H5 H6 H7 H8 H9 H10 W1 W2 W3 W4 H11 H12 H13 H14. constructor; try congruence; auto; try (rewrite W3; auto).
+  intros H1 H2 H3 H4 H5 H6 H7 H8 H9 H10 W1 W2 W3 W4 W5 H11 H12 H13 H14. constructor; try congruence; auto; try (rewrite W3; auto).
   - intros t x H. exists x. unfold cl_ctx_get in *. rewrite H1. split; [assumption | apply cev_refl].
   - exists (fun _ => true). rewrite H2. apply filter_true.
   - exists (fun _ => true). rewrite H3. apply filter_true.
   - exists l. auto.
+  - intros t x x' G G' F F'. unfold cl_ctx_get in *. rewrite H1, G in G'. inversion G'; subst. congruence.
 Qed.
-
-Lemma pending_same (l l' : list cpending) : l' = l ->
-  forall pb', In pb' l' -> exists pb, In pb l /\ pb_id pb' = pb_id pb /\ pb_tag pb' = pb_tag pb.
-Proof. intros -> pb H. exists pb. auto. Qed.
-
-Lemma pending_del (l : list cpending) id :
-  forall pb', In pb' (cl_pend_del l id) -> exists pb, In pb l /\ pb_id pb' = pb_id pb /\ pb_tag pb' = pb_tag pb.
-Proof. intros pb H. exists pb. split; [eapply cl_pend_del_In; eassumption | auto]. Qed.
-
-Lemma pending_put (l : list cpending) x x0 : In x0 l -> pb_id x = pb_id x0 -> pb_tag x = pb_tag x0 ->
-  forall pb', In pb' (cl_pend_put l x) -> exists pb, In pb l /\ pb_id pb' = pb_id pb /\ pb_tag pb' = pb_tag pb.
-Proof.
-  intros I A B pb H. destruct (cl_pend_put_In _ _ _ H) as [->|H']; [exists x0 | exists pb]; auto.
-Qed.
-
-Lemma pending_map (l : list cpending) f : (forall pb, pb_id (f pb) = pb_id pb /\ pb_tag (f pb) = pb_tag pb) ->
-  forall pb', In pb' (map f l) -> exists pb, In pb l /\ pb_id pb' = pb_id pb /\ pb_tag pb' = pb_tag pb.
-Proof. intros Hf pb H. apply in_map_iff in H. destruct H as (q & <- & I). exists q. destruct (Hf q). auto. Qed.
 
 (* the lookup the other way round *)
 Lemma eff_ctx_back P c c' t x' : eff P c c' -> cl_ctx_get c' t = Some x' -> exists x, cl_ctx_get c t = Some x /\ cev x x'.
@@ -276,14 +328,15 @@ Lemma eff_frame' c c' l :
   cc_wl_done c' = cc_wl_done c -> cc_rl_done c' = cc_rl_done c ->
   cc_rl_stuck c' = cc_rl_stuck c -> cc_wl_stuck c' = cc_wl_stuck c ->
   cc_hdrStream c' = cc_hdrStream c -> cc_hdrStatus c' = cc_hdrStatus c -> cc_hdrErr c' = cc_hdrErr c ->
-  cc_hdrEndStream c' = cc_hdrEndStream c ->
+  cc_hdrEndStream c' = cc_hdrEndStream c -> cc_lastErr c' = cc_lastErr c ->
   (Forall (fun o => benign o = true) (cc_outQ c) -> Forall (fun o => benign o = true) (cc_outQ c')) ->
-  (forall pb', In pb' (cc_pending c') -> exists pb, In pb (cc_pending c) /\ pb_id pb' = pb_id pb /\ pb_tag pb' = pb_tag pb) ->
+  pend_sub (cc_pending c') (cc_pending c) ->
   cc_out c' = l ++ cc_out c -> Forall P l -> eff P c c'.
 Proof.
-  intros H1 H2 H3 H4 H5 H6 H7 H8 H9 H10 W1 W2 W3 W4 H11 H12 H13 H14. constructor; try congruence; auto; try (rewrite W3; auto).
+  intros H1 H2 H3 H4 H5 H6 H7 H8 H9 H10 W1 W2 W3 W4 W5 H11 H12 H13 H14. constructor; try congruence; auto; try (rewrite W3; auto).
   - intros t x H. exists x. unfold cl_ctx_get in *. rewrite H1. split; [assumption | apply cev_refl].
   - exists l. auto.
+  - intros t x x' G G' F F'. unfold cl_ctx_get in *. rewrite H1, G in G'. inversion G'; subst. congruence.
 Qed.
 
 Lemma same_filter {A} (l' l : list A) : l' = l -> exists p, l' = filter p l.
@@ -301,9 +354,11 @@ Proof.
   - apply Forall_rev. assumption.
 Qed.
 
-Lemma eff_ctx_put c x x' : cl_ctx_get c (ct_tag x') = Some x -> cev x x' -> eff P c (cl_ctx_put c x').
+Lemma eff_ctx_put_gen c x x' : cl_ctx_get c (ct_tag x') = Some x -> cev x x' ->
+  (ct_finished x = false -> ct_finished x' = true ->
+   ~ held c (ct_tag x') /\ forall pb, In pb (cc_pending c) -> pb_tag pb <> ct_tag x') -> eff P c (cl_ctx_put c x').
 Proof.
-  intros G V. constructor; try reflexivity; auto; try congruence;
+  intros G V HF. constructor; try reflexivity; auto; try congruence;
     try (unfold cl_ctx_put; cc_cbn; intros; congruence).
   - apply tags_cl_ctx_put.
   - intros t y H. rewrite cl_ctx_get_put. destruct (t =? ct_tag x') eqn:E.
@@ -313,20 +368,40 @@ Proof.
   - exists (fun _ => true). apply filter_true.
   - exists []. split; [reflexivity | constructor].
   - apply pending_same. reflexivity.
+  - intros t y y' Gy Gy' Fy Fy'. rewrite cl_ctx_get_put in Gy'. destruct (t =? ct_tag x') eqn:E.
+    + apply N.eqb_eq in E. subst t. rewrite Gy in Gy'. inversion Gy'; subst y'. rewrite G in Gy. inversion Gy; subst y. apply HF; assumption.
+    + rewrite Gy in Gy'. inversion Gy'; subst y'. congruence.
 Qed.
 
-Lemma eff_ctx_upd' c tag f : (forall x, cl_ctx_get c tag = Some x -> cev x (f x)) -> eff P c (cl_ctx_upd c tag f).
+Lemma eff_ctx_put c x x' : cl_ctx_get c (ct_tag x') = Some x -> cev x x' -> ct_finished x' = ct_finished x -> eff P c (cl_ctx_put c x').
+Proof. intros G V F. apply eff_ctx_put_gen with x; auto. intros A B. congruence. Qed.
+
+(* an update that does not finish the request *)
+Lemma eff_ctx_upd' c tag f : (forall x, cl_ctx_get c tag = Some x -> cev x (f x) /\ ct_finished (f x) = ct_finished x) ->
+  eff P c (cl_ctx_upd c tag f).
 Proof.
-  intro Hf. unfold cl_ctx_upd. destruct (cl_ctx_get c tag) as [x|] eqn:G; [|apply eff_refl].
-  apply eff_ctx_put with x; [|apply Hf, eq_refl]. rewrite (cev_tag _ _ (Hf x eq_refl)).
+  intro Hf. unfold cl_ctx_upd. destruct (cl_ctx_get c tag) as [x|] eqn:G; [|apply eff_refl]. destruct (Hf x eq_refl) as [V F].
+  apply eff_ctx_put with x; [|exact V | exact F]. rewrite (cev_tag _ _ V).
   destruct (cl_ctxs_get_In _ _ _ G) as [_ ->]. assumption.
 Qed.
 
-Lemma eff_ctx_upd c tag f : (forall x, cev x (f x)) -> eff P c (cl_ctx_upd c tag f).
-Proof. intro Hf. apply eff_ctx_upd'. intros x _. apply Hf. Qed.
+(* markFinished (+ resolve): the request must have left the queue and the table *)
+Lemma eff_ctx_upd_fin c tag f : (forall x, cl_ctx_get c tag = Some x -> cev x (f x)) -> ~ held c tag ->
+  (forall pb, In pb (cc_pending c) -> pb_tag pb <> tag) -> eff P c (cl_ctx_upd c tag f).
+Proof.
+  intros Hf NH NP. unfold cl_ctx_upd. destruct (cl_ctx_get c tag) as [x|] eqn:G; [|apply eff_refl]. pose proof (Hf x eq_refl) as V.
+  destruct (cl_ctxs_get_In _ _ _ G) as [_ T].
+  apply eff_ctx_put_gen with x; [rewrite (cev_tag _ _ V), T; exact G | exact V|]. intros _ _. rewrite (cev_tag _ _ V), T. split; [exact NH | exact NP].
+Qed.
+
+Lemma eff_ctx_upd c tag f : (forall x, cev x (f x)) -> (forall x, ct_finished (f x) = ct_finished x) -> eff P c (cl_ctx_upd c tag f).
+Proof. intros Hf Hg. apply eff_ctx_upd'. intros x _. auto. Qed.
+
+Lemma finished_resolve x e : ct_finished (cl_ctx_resolve x e) = ct_finished x.
+Proof. rewrite cl_ctx_resolve_eq. destruct (_ && _); reflexivity. Qed.
 
 Lemma eff_resolve c tag e : Eall e -> eff P c (cl_resolve c tag e).
-Proof. intro He. apply eff_ctx_upd. intro x. apply cev_resolve, He. Qed.
+Proof. intro He. apply eff_ctx_upd; [intro x; apply cev_resolve, He | intro x; apply finished_resolve]. Qed.
 
 Lemma eff_resolve_all c tags e : Eall e -> eff P c (cl_resolve_all c tags e).
 Proof.
@@ -340,15 +415,20 @@ Ltac by_frame l :=
   | first [reflexivity | cc_unf] | intro; first [assumption | cc_unf] | intro; first [assumption | cc_unf]
   | first [reflexivity | cc_unf] | first [reflexivity | cc_unf] | first [reflexivity | cc_unf] | first [reflexivity | cc_unf]
   | first [reflexivity | cc_unf] | first [reflexivity | cc_unf] | first [reflexivity | cc_unf] | first [reflexivity | cc_unf]
+  | first [reflexivity | cc_unf]
   | | | | ].
 
-Lemma eff_set_last_err c e : eff P c (cl_set_last_err c e).
+Lemma eff_set_last_err c e : e <> CENil -> eff P c (cl_set_last_err c e).
 Proof.
-  by_frame (@nil coutev).
-  - rewrite cc_outQ_cl_set_last_err. auto.
-  - apply pending_same. apply cc_pending_cl_set_last_err.
-  - rewrite cc_out_cl_set_last_err. reflexivity.
-  - constructor.
+  intro Ne. unfold cl_set_last_err. destruct (cc_lastErr c) eqn:L; [apply eff_refl|].
+  constructor; try reflexivity; cbn [cc_ctxs cc_inQ cc_reqQueued cc_nextID cc_goAway cc_closed cc_wl_done cc_rl_done cc_rl_stuck
+                                     cc_wl_stuck cc_out cc_outQ cc_pending cc_hdrErr cc_lastErr ccu_lastErr]; auto; try congruence.
+  - intros t x G. exists x. split; [exact G | apply cev_refl].
+  - exists (fun _ => true). apply filter_true.
+  - exists (fun _ => true). apply filter_true.
+  - exists []. split; [reflexivity | constructor].
+  - apply pending_same. reflexivity.
+  - intros t x x' G G' F F'. unfold cl_ctx_get in *. cbn [cc_ctxs ccu_lastErr] in G'. rewrite G in G'. inversion G'; subst. congruence.
 Qed.
 
 Lemma eff_take_req_count c id : eff P c (cl_take_req_count c id).
@@ -368,6 +448,7 @@ Proof.
   - apply cc_hdrStatus_cl_take_req_count.
   - apply cc_hdrErr_cl_take_req_count.
   - apply cc_hdrEndStream_cl_take_req_count.
+  - apply cc_lastErr_cl_take_req_count.
   - rewrite cc_outQ_cl_take_req_count. auto.
   - apply pending_same, cc_pending_cl_take_req_count.
   - rewrite cc_out_cl_take_req_count. reflexivity.
@@ -408,6 +489,7 @@ Proof.
   - apply cc_hdrStatus_cl_conn_close.
   - apply cc_hdrErr_cl_conn_close.
   - apply cc_hdrEndStream_cl_conn_close.
+  - apply cc_lastErr_cl_conn_close.
   - rewrite cc_outQ_cl_conn_close. auto.
   - apply pending_same, cc_pending_cl_conn_close.
   - rewrite cc_out_cl_conn_close. destruct (negb (cc_closed c) && cl_can_write c); reflexivity.
@@ -417,7 +499,7 @@ Qed.
 Lemma eff_close_body c pb : eff P c (cl_close_body c pb).
 Proof.
   unfold cl_close_body. destruct (pb_stream pb); [|apply eff_refl].
-  eapply eff_trans; [apply eff_ctx_upd; intro; apply cev_bodyClosed | apply eff_note, Pben; reflexivity].
+  eapply eff_trans; [apply eff_ctx_upd; [intro; apply cev_bodyClosed | reflexivity] | apply eff_note, Pben; reflexivity].
 Qed.
 
 (* a goroutine that holds no Ctx.lck takes one: never the outcome "parked" while no lck is stuck *)
@@ -441,6 +523,14 @@ Proof.
   destruct (acquire_for_nostuck (ccu_pending c (cl_pend_del (cc_pending c) id)) (pb_tag pb) id NS) as [-> | ->]; cbn [fst snd].
   - split; [|reflexivity]. eapply eff_trans; [exact E1 | apply eff_close_body].
   - split; [exact E1 | reflexivity].
+Qed.
+
+Lemma cc_pending_cl_delete_pending' who hl c id :
+  cc_pending (fst (cl_delete_pending who hl c id)) = cl_pend_del (cc_pending c) id.
+Proof.
+  unfold cl_delete_pending. destruct (cl_pend_get (cc_pending c) id) as [pb|] eqn:G; [|cbn [fst]; symmetry; apply cl_pend_del_absent, G].
+  destruct (pb_stream pb); [|reflexivity]. destruct (cl_acquire_for hl _ (pb_tag pb) id); cbn [fst];
+    rewrite ?cc_pending_cl_close_body, ?cc_pending_cl_go_stuck; reflexivity.
 Qed.
 
 Lemma eff_apply_initial_window c size : eff P c (cl_apply_initial_window c size).
@@ -471,13 +561,33 @@ Proof.
   - destruct (cs_hasWin st); [apply eff_apply_initial_window | apply eff_refl].
 Qed.
 
-Lemma eff_finish c tag id e : Eall e -> eff P c (cl_finish c tag id e).
+Lemma eff_finish c tag id e : (forall x, cl_ctx_get c tag = Some x -> Eok (ct_sid x) e) ->
+  ~ In tag (cc_inQ c) -> (forall i, In (i, tag) (cc_reqQueued c) -> i = id) ->
+  NoDup (map pb_id (cc_pending c)) -> (forall pb, In pb (cc_pending c) -> pb_tag pb = tag -> pb_id pb = id) ->
+  eff P c (cl_finish c tag id e).
 Proof.
-  intro He. unfold cl_finish. eapply eff_trans; [apply eff_take_req_count|].
-  eapply eff_trans; [|apply eff_ctx_upd; intro; apply cev_finish_resolve, He].
-  set (c1 := cl_take_req_count c id). destruct (cl_pend_get (cc_pending c1) id) as [pb|]; [|apply eff_refl].
-  eapply eff_trans; [|apply eff_close_body].
-  apply (eff_frame P c1 _ []); try reflexivity; auto. apply pending_del.
+  intros He NQ NR' PND PT. unfold cl_finish.
+  set (c1 := cl_take_req_count c id).
+  set (c2 := match cl_pend_get (cc_pending c1) id with Some pb => cl_close_body (ccu_pending c1 (cl_pend_del (cc_pending c1) id)) pb | None => c1 end).
+  assert (E2 : eff P c c2).
+  { eapply eff_trans; [apply eff_take_req_count|]. unfold c2. fold c1.
+    destruct (cl_pend_get (cc_pending c1) id) as [pb|]; [|apply eff_refl].
+    eapply eff_trans; [|apply eff_close_body].
+    apply (eff_frame P c1 _ []); try reflexivity; auto. apply pending_del. }
+  eapply eff_trans; [exact E2|]. apply eff_ctx_upd_fin.
+  - intros x2 G2. apply cev_finish_resolve.
+    destruct (eff_ctx_back _ _ _ _ _ E2 G2) as (x & G & V). rewrite (cev_sid _ _ V). apply He, G.
+  - assert (I2 : cc_inQ c2 = cc_inQ c).
+    { unfold c2. destruct (cl_pend_get (cc_pending c1) id); [rewrite cc_inQ_cl_close_body; cbn [cc_inQ ccu_pending]|]; apply cc_inQ_cl_take_req_count. }
+    assert (Q2 : cc_reqQueued c2 = filter (fun en => negb (fst en =? id)) (cc_reqQueued c)).
+    { unfold c2. destruct (cl_pend_get (cc_pending c1) id); [rewrite cc_reqQueued_cl_close_body; cbn [cc_reqQueued ccu_pending]|]; apply cc_reqQueued_cl_take_req_count. }
+    intros [H|H]; [rewrite I2 in H; contradiction|]. rewrite Q2 in H. apply in_map_iff in H. destruct H as ([i u] & Hu & H). cbn in Hu. subst u.
+    apply filter_In in H. destruct H as [H F]. cbn in F. rewrite (NR' i H), N.eqb_refl in F. discriminate.
+  - assert (P1 : cc_pending c1 = cc_pending c) by apply cc_pending_cl_take_req_count.
+    unfold c2. destruct (cl_pend_get (cc_pending c1) id) as [pb0|] eqn:PG.
+    + intros pb J. rewrite cc_pending_cl_close_body in J. cbn [cc_pending ccu_pending] in J. rewrite P1 in J.
+      apply (pend_del_no_tag (cc_pending c) id tag PND PT pb J).
+    + intros pb J E'. rewrite P1 in J, PG. apply (cl_pend_get_None _ _ PG pb J). apply PT; assumption.
 Qed.
 
 End EffHelpers.
@@ -486,9 +596,6 @@ End EffHelpers.
 Section Struct.
 Context {hstate : Type}.
 Implicit Types c : cconn hstate.
-
-(* the tags the connection still has to answer: queued in `in`, or on the request table *)
-Definition held c (t : N) : Prop := In t (cc_inQ c) \/ In t (map snd (cc_reqQueued c)).
 
 (* whoever lets go of a request answers it *)
 Definition obl c c' : Prop :=
@@ -547,8 +654,12 @@ Record st_ok c : Prop := mkStOk {
   s_rl_done : cc_rl_done c = true -> cc_closed c = true;
   s_outQ : Forall (fun o => benign o = true) (cc_outQ c);
   s_hdrErr : herr_ok (cc_hdrErr c);
+  s_lastErr : cc_lastErr c <> Some CENil;
   s_pending : forall pb, In pb (cc_pending c) ->
-              pb_id pb < cc_nextID c /\ forall t, In (pb_id pb, t) (cc_reqQueued c) -> t = pb_tag pb
+              pb_id pb < cc_nextID c /\ forall t, In (pb_id pb, t) (cc_reqQueued c) -> t = pb_tag pb;
+  (* a pending body belongs to the Ctx that has its stream *)
+  s_pb : forall pb, In pb (cc_pending c) -> pb_id pb <> 0 /\ exists x, cl_ctx_get c (pb_tag pb) = Some x /\ ct_sid x = pb_id pb;
+  s_pnd : NoDup (map pb_id (cc_pending c))
 }.
 
 Lemma NoDup_map_filter {A B} (f : A -> B) p l : NoDup (map f l) -> NoDup (map f (filter p l)).
@@ -588,8 +699,12 @@ Proof.
     + apply (e_rl_new _ _ _ E W0 W).
   - apply (e_outQ _ _ _ E), S.
   - apply (e_hdrErr _ _ _ E), S.
-  - intros pb' H. destruct (e_pending _ _ _ E _ H) as (pb & I & A & B). destruct (s_pending _ S _ I) as [C D].
+  - apply (e_lastErr _ _ _ E), S.
+  - intros pb' H. destruct (proj1 (e_pending _ _ _ E) _ H) as (pb & I & A & B). destruct (s_pending _ S _ I) as [C D].
     rewrite A, B, (e_nextID _ _ _ E). split; [assumption|]. intros t J. apply D. rewrite Hq in J. apply filter_In in J. tauto.
+  - intros pb' H. destruct (proj1 (e_pending _ _ _ E) _ H) as (pb & I & A & B). destruct (s_pb _ S _ I) as (C & x & G & D).
+    rewrite A, B. split; [assumption|]. destruct (e_ctx _ _ _ E _ _ G) as (x' & G' & V). exists x'. rewrite (cev_sid _ _ V). auto.
+  - apply (proj2 (e_pending _ _ _ E)), S.
 Qed.
 
 Record an_ok c : Prop := mkAnOk {
@@ -597,7 +712,10 @@ Record an_ok c : Prop := mkAnOk {
   a_done : forall t x, cl_ctx_get c t = Some x -> ct_done x = true -> answered x = true;
   a_fired : forall t x, cl_ctx_get c t = Some x -> ct_fired x = true -> answered x = true;
   a_wl : cc_wl_done c = true ->
-         forall t x, In t (cc_inQ c) -> cl_ctx_get c t = Some x -> ct_writing x = true \/ answered x = true
+         forall t x, In t (cc_inQ c) -> cl_ctx_get c t = Some x -> ct_writing x = true \/ answered x = true;
+  (* a Ctx marked finished has left the queue and the table: the caller may put it back in the pool *)
+  a_fin : forall t x, cl_ctx_get c t = Some x -> ct_finished x = true ->
+          ~ held c t /\ forall pb, In pb (cc_pending c) -> pb_tag pb <> t
 }.
 
 Lemma an_ok_effo P c c' : an_ok c -> effo P c c' -> an_ok c'.
@@ -615,6 +733,11 @@ Proof.
       destruct (a_wl _ A W0 t x (proj1 I) G) as [B|B]; [left; rewrite (cev_writing _ _ V); assumption|].
       right. eapply cev_answered; eassumption.
     + destruct (e_wl_new _ _ _ E W0 W) as (_ & _ & Q). rewrite Q in I. destruct I.
+  - intros t x' G' F'. destruct (eff_ctx_back _ _ _ _ _ E G') as (x & G & V). destruct (ct_finished x) eqn:F.
+    + destruct (a_fin _ A _ _ G F) as [NH NP]. split.
+      * intro H. apply NH. apply (held_filter _ _ _ _ E H).
+      * intros pb Hpb. destruct (proj1 (e_pending _ _ _ E) _ Hpb) as (pb0 & I0 & _ & B0). rewrite B0. apply NP, I0.
+    + apply (e_fin _ _ _ E _ _ _ G G' F F').
 Qed.
 
 End Struct.
@@ -630,18 +753,19 @@ Lemma effo_note c o : P o -> effo P c (cl_note c o).
 Proof. intro H. apply effo_keep; [apply eff_note, H | reflexivity | reflexivity]. Qed.
 Lemma effo_notes c l : Forall P l -> effo P c (cl_notes c l).
 Proof. intro H. apply effo_keep; [apply eff_notes, H | apply cc_inQ_cl_notes | apply cc_reqQueued_cl_notes]. Qed.
-Lemma effo_ctx_upd c tag f : (forall x, cev x (f x)) -> effo P c (cl_ctx_upd c tag f).
-Proof. intro H. apply effo_keep; [apply eff_ctx_upd, H | apply cc_inQ_cl_ctx_upd | apply cc_reqQueued_cl_ctx_upd]. Qed.
-Lemma effo_ctx_upd' c tag f : (forall x, cl_ctx_get c tag = Some x -> cev x (f x)) -> effo P c (cl_ctx_upd c tag f).
-Proof. intro H. apply effo_keep; [apply eff_ctx_upd', H | apply cc_inQ_cl_ctx_upd | apply cc_reqQueued_cl_ctx_upd]. Qed.
-Lemma effo_ctx_put c x x' : cl_ctx_get c (ct_tag x') = Some x -> cev x x' -> effo P c (cl_ctx_put c x').
-Proof. intros G V. apply effo_keep; [eapply eff_ctx_put; eassumption | reflexivity | reflexivity]. Qed.
+Lemma effo_ctx_upd c tag f : (forall x, cev x (f x)) -> (forall x, ct_finished (f x) = ct_finished x) -> effo P c (cl_ctx_upd c tag f).
+Proof. intros H H'. apply effo_keep; [apply eff_ctx_upd; assumption | apply cc_inQ_cl_ctx_upd | apply cc_reqQueued_cl_ctx_upd]. Qed.
+Lemma effo_ctx_upd_fin c tag f : (forall x, cl_ctx_get c tag = Some x -> cev x (f x)) -> ~ held c tag ->
+  (forall pb, In pb (cc_pending c) -> pb_tag pb <> tag) -> effo P c (cl_ctx_upd c tag f).
+Proof. intros H H' H''. apply effo_keep; [apply eff_ctx_upd_fin; assumption | apply cc_inQ_cl_ctx_upd | apply cc_reqQueued_cl_ctx_upd]. Qed.
+Lemma effo_ctx_put c x x' : cl_ctx_get c (ct_tag x') = Some x -> cev x x' -> ct_finished x' = ct_finished x -> effo P c (cl_ctx_put c x').
+Proof. intros G V F. apply effo_keep; [eapply eff_ctx_put; eassumption | reflexivity | reflexivity]. Qed.
 Lemma effo_resolve c tag e : Eall e -> effo P c (cl_resolve c tag e).
 Proof. intro He. apply effo_keep; [apply eff_resolve, He | apply cc_inQ_cl_resolve | apply cc_reqQueued_cl_resolve]. Qed.
 Lemma effo_resolve_all c tags e : Eall e -> effo P c (cl_resolve_all c tags e).
 Proof. intro He. apply effo_keep; [apply eff_resolve_all, He | apply cc_inQ_cl_resolve_all | apply cc_reqQueued_cl_resolve_all]. Qed.
-Lemma effo_set_last_err c e : effo P c (cl_set_last_err c e).
-Proof. apply effo_keep; [apply eff_set_last_err; assumption | apply cc_inQ_cl_set_last_err | apply cc_reqQueued_cl_set_last_err]. Qed.
+Lemma effo_set_last_err c e : e <> CENil -> effo P c (cl_set_last_err c e).
+Proof. intro Ne. apply effo_keep; [apply eff_set_last_err; assumption | apply cc_inQ_cl_set_last_err | apply cc_reqQueued_cl_set_last_err]. Qed.
 Lemma effo_write_out c o : benign o = true -> effo P c (cl_write_out c o).
 Proof. intro H. apply effo_keep; [apply eff_write_out; assumption | apply cc_inQ_cl_write_out | apply cc_reqQueued_cl_write_out]. Qed.
 Lemma effo_cancel_stream c id code : effo P c (cl_cancel_stream c id code).
@@ -669,9 +793,9 @@ Lemma effo_frame c c' l :
   cc_goAway c' = cc_goAway c -> cc_closed c' = cc_closed c -> cc_wl_done c' = cc_wl_done c -> cc_rl_done c' = cc_rl_done c ->
   cc_rl_stuck c' = cc_rl_stuck c -> cc_wl_stuck c' = cc_wl_stuck c ->
   cc_hdrStream c' = cc_hdrStream c -> cc_hdrStatus c' = cc_hdrStatus c -> cc_hdrErr c' = cc_hdrErr c ->
-  cc_hdrEndStream c' = cc_hdrEndStream c ->
+  cc_hdrEndStream c' = cc_hdrEndStream c -> cc_lastErr c' = cc_lastErr c ->
   (Forall (fun o => benign o = true) (cc_outQ c) -> Forall (fun o => benign o = true) (cc_outQ c')) ->
-  (forall pb', In pb' (cc_pending c') -> exists pb, In pb (cc_pending c) /\ pb_id pb' = pb_id pb /\ pb_tag pb' = pb_tag pb) ->
+  pend_sub (cc_pending c') (cc_pending c) ->
   cc_out c' = l ++ cc_out c -> Forall P l -> effo P c c'.
 Proof. intros. apply effo_keep; [eapply eff_frame; eassumption | assumption | assumption]. Qed.
 
@@ -697,9 +821,6 @@ Lemma upd_resolve_get c tag g e x :
 Proof.
   intros G Hg. rewrite cl_ctx_get_upd, N.eqb_refl, G; [reflexivity|]. intro y. rewrite ct_tag_cl_ctx_resolve. apply Hg.
 Qed.
-
-Lemma finished_resolve x e : ct_finished (cl_ctx_resolve x e) = ct_finished x.
-Proof. rewrite cl_ctx_resolve_eq. destruct (_ && _); reflexivity. Qed.
 
 Lemma resolve_all_answered c tags e t x : Eall e ->
   (forall t x, cl_ctx_get c t = Some x -> ct_resolved x = ct_returned x) -> In t tags -> cl_ctx_get c t = Some x ->
@@ -755,9 +876,15 @@ Proof.
     [rewrite cc_reqQueued_cl_close_body; cbn [cc_reqQueued ccu_pending]|]; apply cc_reqQueued_cl_take_req_count.
 Qed.
 
-Lemma effo_finish c tag id e : Eall e -> st_ok c -> (forall t, In (id, t) (cc_reqQueued c) -> t = tag) -> effo P c (cl_finish c tag id e).
+Lemma effo_finish c tag id e : (forall x, cl_ctx_get c tag = Some x -> Eok (ct_sid x) e) -> st_ok c ->
+  (forall t, In (id, t) (cc_reqQueued c) -> t = tag) ->
+  ~ In tag (cc_inQ c) -> (forall i, In (i, tag) (cc_reqQueued c) -> i = id) ->
+  (forall x, cl_ctx_get c tag = Some x -> ct_sid x = id) -> effo P c (cl_finish c tag id e).
 Proof.
-  intros He S Hid. split; [apply eff_finish; try exact Pben; exact He|]. unfold cl_finish.
+  intros He S Hid NQ NR' HSid.
+  assert (PT : forall pb, In pb (cc_pending c) -> pb_tag pb = tag -> pb_id pb = id).
+  { intros pb J E'. destruct (s_pb _ S _ J) as (_ & y & Gy & Sy). rewrite E' in Gy. rewrite <- Sy. apply HSid, Gy. }
+  split; [apply eff_finish; try exact Pben; try assumption; apply (s_pnd _ S)|]. unfold cl_finish.
   set (c2 := match cl_pend_get _ id with Some _ => _ | None => _ end).
   assert (E : eff P c c2).
   { unfold c2. eapply eff_trans; [apply eff_take_req_count|].
@@ -812,7 +939,23 @@ Proof.
       destruct (cl_delete_pending 1 [] c id) as [c1 stuck] eqn:D. cbn [fst snd] in E1, F1. subst stuck.
       cbn [fst snd]. split; [|discriminate]. split.
       * eapply eff_trans; [apply E1|]. eapply eff_trans; [apply eff_cancel_stream; try exact Pben|].
-        eapply eff_trans; [apply eff_take_req_count | apply eff_ctx_upd; intro; apply cev_finish_resolve, Enr; [reflexivity | discriminate]].
+        eapply eff_trans; [apply eff_take_req_count|]. apply eff_ctx_upd_fin; [intros; apply cev_finish_resolve, Enr; [reflexivity | discriminate]| |].
+        2:{ (* no other pending body belongs to this Ctx *)
+            rewrite cc_pending_cl_take_req_count, cc_pending_cl_cancel_stream.
+            replace c1 with (fst (cl_delete_pending 1 [] c id)) by (rewrite D; reflexivity). rewrite cc_pending_cl_delete_pending'.
+            apply (pend_del_no_tag (cc_pending c) id (pb_tag pb) (s_pnd _ S)). intros pb2 J2 E2.
+            destruct (s_pb _ S _ J2) as (_ & y2 & Gy2 & Sy2). destruct (s_pb _ S _ Ipb) as (_ & y1 & Gy1 & Sy1). rewrite E2 in Gy2. congruence. }
+        (* the Ctx of this body has stream id, which has just left the table *)
+        assert (IQ1 : cc_inQ c1 = cc_inQ c) by (replace c1 with (fst (cl_delete_pending 1 [] c id)) by (rewrite D; reflexivity); apply cc_inQ_cl_delete_pending).
+        assert (RQ1 : cc_reqQueued c1 = cc_reqQueued c) by (replace c1 with (fst (cl_delete_pending 1 [] c id)) by (rewrite D; reflexivity); apply cc_reqQueued_cl_delete_pending).
+        destruct (s_pb _ S _ Ipb) as (NZ & xp & Gp & SP0). rewrite Hid in NZ, SP0.
+        assert (SP : forall y, cl_ctx_get c (pb_tag pb) = Some y -> ct_sid y = id) by (intros y Gy; congruence).
+        intros [H|H].
+        -- rewrite cc_inQ_cl_take_req_count, cc_inQ_cl_cancel_stream, IQ1 in H. destruct (s_inQ _ S _ H) as (y & Gy & Zy & _).
+           rewrite (SP _ Gy) in Zy. contradiction.
+        -- rewrite cc_reqQueued_cl_take_req_count, cc_reqQueued_cl_cancel_stream, RQ1 in H. apply in_map_iff in H.
+           destruct H as ([i u] & Hu & H). cbn in Hu. subst u. apply filter_In in H. destruct H as [H F]. cbn in F.
+           destruct (s_rq _ S _ _ H) as (y & Gy & Sy & _). rewrite (SP _ Gy) in Sy. subst i. rewrite N.eqb_refl in F. discriminate.
       * apply (obl_take_resolve c (cl_take_req_count (cl_cancel_stream c1 id c_InternalError) id) id (pb_tag pb)
                  (fun y => ctu_finished y true) CEBody S); auto.
         -- eapply eff_trans; [apply E1|]. eapply eff_trans; [apply eff_cancel_stream; try exact Pben | apply eff_take_req_count].
@@ -863,16 +1006,18 @@ Proof.
   - exists (fun _ => true). apply filter_true.
   - exists []. split; [reflexivity | constructor].
   - apply pending_same. reflexivity.
+  - intros t x x' G G' F F'. unfold cl_ctx_get in *. cbn in G'. rewrite G in G'. inversion G'; subst. congruence.
 Qed.
 
-Lemma effo_wl_exit c le why : Eall (match le with Some e => e | None => CEConn end) -> st_ok c -> effo P c (cl_wl_exit c le why).
+Lemma effo_wl_exit c le why : Eall (match le with Some e => e | None => CEConn end) ->
+  (match le with Some e => e | None => CEConn end) <> CENil -> st_ok c -> effo P c (cl_wl_exit c le why).
 Proof.
-  intros He S. unfold cl_wl_exit.
+  intros He Hne S. unfold cl_wl_exit.
   set (e := match le with Some e => e | None => CEConn end).
   set (c1 := cl_conn_close (cl_set_last_err c e)).
   set (c2' := cl_resolve_all c1 (map snd (cc_reqQueued c1)) e). set (c2 := ccu_reqQueued c2' []).
   set (c3' := cl_resolve_all c2 (cc_inQ c2) e). set (c3 := ccu_outQ (ccu_inQ c3' []) []).
-  assert (E1 : effo P c c1). { eapply effo_trans; [apply effo_set_last_err; try exact Pben | apply effo_conn_close; try exact Pben]. }
+  assert (E1 : effo P c c1). { eapply effo_trans; [apply effo_set_last_err; first [exact Pben | exact Hne] | apply effo_conn_close; try exact Pben]. }
   assert (E2' : effo P c1 c2') by (apply effo_resolve_all; exact He).
   assert (E2 : eff P c2' c2).
   { apply (eff_frame' P c2' c2 []); try reflexivity; auto.
@@ -919,7 +1064,7 @@ Proof.
 Qed.
 
 Lemma effo_wl_after c : st_ok c -> effo P c (cl_wl_after cfg c).
-Proof. intro S. unfold cl_wl_after. destruct (negb (ccf_disableAcks cfg) && (3 <=? cc_unacks c)%Z); [apply effo_wl_exit; [apply Eall_nr; [reflexivity | discriminate] | exact S] | apply effo_refl]. Qed.
+Proof. intro S. unfold cl_wl_after. destruct (negb (ccf_disableAcks cfg) && (3 <=? cc_unacks c)%Z); [apply effo_wl_exit; [apply Eall_nr; [reflexivity | discriminate] | discriminate | exact S] | apply effo_refl]. Qed.
 
 Lemma effo_wl_out c : st_ok c -> effo P c (cl_wl_out cfg c).
 Proof.
@@ -933,7 +1078,7 @@ Proof.
   destruct (cl_can_write (ccu_outQ c q)).
   - eapply effo_trans; [exact E1|]. assert (E2 : effo P (ccu_outQ c q) (cl_note (ccu_outQ c q) o)) by (apply effo_note, Pben, Bo).
     eapply effo_trans; [exact E2 | apply effo_wl_after, (st_ok_eff _ _ _ S1 (proj1 E2))].
-  - eapply effo_trans; [exact E1 | apply effo_wl_exit; [apply Eall_nr; [reflexivity | discriminate] | exact S1]].
+  - eapply effo_trans; [exact E1 | apply effo_wl_exit; [apply Eall_nr; [reflexivity | discriminate] | discriminate | exact S1]].
 Qed.
 
 Lemma effo_wl_win c order : st_ok c -> effo P c (cl_wl_win cfg c order).
@@ -947,12 +1092,12 @@ Proof.
   pose proof (st_ok_eff _ _ _ S1 (proj1 E2)) as S2.
   destruct r; [| | contradiction].
   - eapply effo_trans; [exact E1|]. eapply effo_trans; [exact E2 | apply effo_wl_after, S2].
-  - eapply effo_trans; [exact E1|]. eapply effo_trans; [exact E2 | apply effo_wl_exit; [apply Eall_nr; [reflexivity | discriminate] | exact S2]].
+  - eapply effo_trans; [exact E1|]. eapply effo_trans; [exact E2 | apply effo_wl_exit; [apply Eall_nr; [reflexivity | discriminate] | discriminate | exact S2]].
 Qed.
 
 Lemma effo_wl_ping c : st_ok c -> effo P c (cl_wl_ping cfg c).
 Proof.
-  intro S. unfold cl_wl_ping. destruct (cl_can_write c); [|apply effo_wl_exit; [apply Eall_nr; [reflexivity | discriminate] | exact S]].
+  intro S. unfold cl_wl_ping. destruct (cl_can_write c); [|apply effo_wl_exit; [apply Eall_nr; [reflexivity | discriminate] | discriminate | exact S]].
   set (c1 := ccu_unacks _ _).
   assert (E1 : effo P c c1). { apply (effo_frame P c _ [COPing]); try reflexivity; auto; try (apply pending_same; reflexivity).
     all: repeat constructor; apply Pben; reflexivity. }
@@ -960,7 +1105,7 @@ Proof.
 Qed.
 
 Lemma effo_wl_done c : st_ok c -> effo P c (cl_wl_done c).
-Proof. intro S. unfold cl_wl_done. destruct (cc_closed c); [apply effo_wl_exit; [apply Eall_nr; [reflexivity | discriminate] | exact S] | apply effo_refl]. Qed.
+Proof. intro S. unfold cl_wl_done. destruct (cc_closed c); [apply effo_wl_exit; [apply Eall_nr; [reflexivity | discriminate] | discriminate | exact S] | apply effo_refl]. Qed.
 
 End EffoWL.
 
@@ -982,6 +1127,7 @@ Proof.
   - exists (fun _ => true). apply filter_true.
   - exists []. split; [reflexivity | constructor].
   - apply pending_same. reflexivity.
+  - intros t x x' G G' F F'. unfold cl_ctx_get in *. cbn in G'. rewrite G in G'. inversion G'; subst. congruence.
 Qed.
 
 Lemma effo_rl_exit c why : effo P c (cl_rl_exit c why).
@@ -992,14 +1138,14 @@ Proof.
 Qed.
 
 Lemma effo_rl_fail c : effo P c (cl_rl_fail c).
-Proof. unfold cl_rl_fail. eapply effo_trans; [apply effo_set_last_err | apply effo_rl_exit]. Qed.
+Proof. unfold cl_rl_fail. apply (effo_trans _ _ (cl_set_last_err c CEConn)); [apply effo_set_last_err; first [exact Pben | discriminate] | apply effo_rl_exit]. Qed.
 
 Lemma effo_rl_panic c : P (COPanic 0) -> st_ok c -> effo P c (cl_rl_panic c).
 Proof.
   intros Pp S. unfold cl_rl_panic. assert (He : Eall CEConn) by (apply Eall_nr; [reflexivity | discriminate]).
   set (c1 := cl_set_last_err (cl_note c (COPanic 0)) CEConn).
   set (c2' := cl_resolve_all c1 (map snd (cc_reqQueued c1)) CEConn). set (c2 := ccu_reqQueued c2' []).
-  assert (E1 : effo P c c1). { eapply effo_trans; [apply effo_note, Pp | apply effo_set_last_err]. }
+  assert (E1 : effo P c c1). { eapply effo_trans; [apply effo_note, Pp | apply effo_set_last_err; first [exact Pben | discriminate]]. }
   assert (E2' : effo P c1 c2') by (apply effo_resolve_all; exact He).
   assert (E2 : eff P c2' c2).
   { apply (eff_frame' P c2' c2 []); try reflexivity; auto.
@@ -1040,22 +1186,23 @@ Definition rs_conn {A B C} (r : cconn hstate * A * B * C) : cconn hstate := fst 
    looks at dispatch itself (Proofs/CliResNil.v) *)
 Hypothesis W_any : forall c c' : cconn hstate, Wok hstate c c'.
 Hypothesis V_any : forall x x', Vok x x'.
-Hypothesis Enil : Eall CENil.
 
 Lemma effo_frame_rl c c' l :
   cc_ctxs c' = cc_ctxs c -> cc_inQ c' = cc_inQ c -> cc_reqQueued c' = cc_reqQueued c -> cc_nextID c' = cc_nextID c ->
   cc_goAway c' = cc_goAway c -> cc_closed c' = cc_closed c -> cc_wl_done c' = cc_wl_done c -> cc_rl_done c' = cc_rl_done c ->
   cc_rl_stuck c' = cc_rl_stuck c -> cc_wl_stuck c' = cc_wl_stuck c ->
   (Forall (fun o => benign o = true) (cc_outQ c) -> Forall (fun o => benign o = true) (cc_outQ c')) ->
-  (forall pb', In pb' (cc_pending c') -> exists pb, In pb (cc_pending c) /\ pb_id pb' = pb_id pb /\ pb_tag pb' = pb_tag pb) ->
-  cc_out c' = l ++ cc_out c -> Forall P l -> (herr_ok (cc_hdrErr c) -> herr_ok (cc_hdrErr c')) -> effo P c c'.
+  pend_sub (cc_pending c') (cc_pending c) ->
+  cc_out c' = l ++ cc_out c -> Forall P l -> (herr_ok (cc_hdrErr c) -> herr_ok (cc_hdrErr c')) ->
+  cc_lastErr c' = cc_lastErr c -> effo P c c'.
 Proof.
-  intros H1 H2 H3 H4 H5 H6 H7 H8 H9 H10 H11 H12 H13 H14 H15. apply effo_keep; [|assumption|assumption].
+  intros H1 H2 H3 H4 H5 H6 H7 H8 H9 H10 H11 H12 H13 H14 H15 H16. apply effo_keep; [|assumption|assumption].
   constructor; try congruence; auto.
   - intros t x H. exists x. unfold cl_ctx_get in *. rewrite H1. split; [assumption | apply cev_refl].
   - exists (fun _ => true). rewrite H2. apply filter_true.
   - exists (fun _ => true). rewrite H3. apply filter_true.
   - exists l. auto.
+  - intros t x x' G G' F F'. unfold cl_ctx_get in *. rewrite H1, G in G'. inversion G'; subst. congruence.
 Qed.
 
 Lemma read_header_field_err rseen status r k v : herr_ok (snd (cl_read_header_field rseen status r k v)).
@@ -1248,6 +1395,17 @@ Definition disp_tail c2 (id : N) (ok2 : option cctx) (ended : bool) (err3 : cl_r
     (c3, if cl_gone_away c3 then CDStop else CDCont)
   end.
 
+(* this dispatch ends its request with a nil error: the stream is on the table and its Ctx could be taken, the frame
+   completes the response (END_STREAM), and the checks of dispatch pass *)
+Definition nil_at c (fr : sframe) : Prop :=
+  match disp_pre c (sf_sid fr) with
+  | inr _ => False
+  | inl (c0, ok) =>
+    let '(c1, res', ended, err) := cl_read_stream dec_field c0 fr (match ok with Some x => Some (ct_resp x) | None => None end) in
+    let '(ok2, err2) := disp_chk c1 fr (disp_ok1 ok res') err in
+    ok2 <> None /\ ended = true /\ disp_err3 fr ok2 err2 = CRSNone
+  end.
+
 Lemma cl_dispatch_eq c fr :
   cl_dispatch dec_field c fr =
   match disp_pre c (sf_sid fr) with
@@ -1264,7 +1422,6 @@ Variable P : coutev -> Prop.
 Hypothesis Pben : forall o, benign o = true -> P o.
 Hypothesis W_any : forall c c' : cconn hstate, Wok hstate c c'.
 Hypothesis V_any : forall x x', Vok x x'.
-Hypothesis Enil : Eall CENil.
 
 Lemma rq_unique_eff' c c' id tag : eff P c c' ->
   (forall t, In (id, t) (cc_reqQueued c) -> t = tag) -> forall t, In (id, t) (cc_reqQueued c') -> t = tag.
@@ -1272,11 +1429,11 @@ Proof. intros E H t I. apply H. destruct (e_rq _ _ _ E) as [p Hp]. rewrite Hp in
 
 Lemma disp_pre_spec c id : st_ok c -> an_ok c ->
   exists c0 ok, disp_pre c id = inl (c0, ok) /\ effo P c c0 /\
-    (forall x, ok = Some x -> cl_ctx_get c0 (ct_tag x) = Some x /\ forall t, In (id, t) (cc_reqQueued c0) -> t = ct_tag x).
+    (forall x, ok = Some x -> cl_ctx_get c0 (ct_tag x) = Some x /\ ct_sid x = id /\ id <> 0 /\ forall t, In (id, t) (cc_reqQueued c0) -> t = ct_tag x).
 Proof.
   intros S A. unfold disp_pre. destruct (cl_req_find (cc_reqQueued c) id) as [tag|] eqn:F.
   - pose proof (rq_unique c id tag S F) as U. pose proof (cl_req_find_In _ _ _ F) as I.
-    destruct (s_rq _ S _ _ I) as (x & G & Hs & Hc & _).
+    destruct (s_rq _ S _ _ I) as (x & G & Hs & Hc & NZ0 & _).
     destruct (acquire_for_nostuck c tag id (s_nostuck _ S)) as [Q|Q]; rewrite Q.
     + exists c, (cl_ctx_get c tag). split; [reflexivity|]. split; [apply effo_refl|]. intros y Hy. rewrite G in Hy. inversion Hy; subst y.
       destruct (cl_ctxs_get_In _ _ _ G) as [_ T]. rewrite T. auto.
@@ -1307,6 +1464,15 @@ Proof.
     (split; [intros x2 E; inversion E; subst; exists x; split; [reflexivity|]; first [assumption | eapply cev_trans; [exact V1 | apply cev_gotStatus, V_any]] | congruence]).
 Qed.
 
+Lemma disp_chk_finished c1 fr ok res' err ok2 err2 : disp_chk c1 fr (disp_ok1 ok res') err = (ok2, err2) ->
+  forall x2, ok2 = Some x2 -> exists x, ok = Some x /\ ct_finished x2 = ct_finished x.
+Proof.
+  unfold disp_chk, disp_ok1. intro H. destruct ok as [x|]; [|destruct err; inversion H; subst; discriminate].
+  intros x2 E. exists x. split; [reflexivity|]. subst ok2.
+  destruct res'; destruct err;
+    repeat match type of H with context [if ?b then _ else _] => destruct b end; inversion H; subst; reflexivity.
+Qed.
+
 Lemma disp_chk_plain c1 fr ok1 err : rs_plain err -> rs_plain (snd (disp_chk c1 fr ok1 err)).
 Proof.
   intro H. unfold disp_chk. destruct ok1 as [x|]; [|exact H]. destruct err; try exact H.
@@ -1324,32 +1490,47 @@ Lemma disp_err3_panic fr ok2 err2 : disp_err3 fr ok2 err2 = CRSPanic -> err2 = C
 Proof. unfold disp_err3. destruct ok2; [|auto]. destruct err2; auto. destruct (_ && _); [discriminate | auto]. Qed.
 
 Lemma disp_tail_spec c2 id ok2 ended err3 : st_ok c2 -> rs_plain err3 ->
+  (ok2 <> None -> ended = true -> err3 = CRSNone -> Eok id CENil) ->
+  (forall x2, ok2 = Some x2 -> cl_ctx_get c2 (ct_tag x2) = Some x2 /\ ct_sid x2 = id /\ id <> 0) ->
   (forall x2, ok2 = Some x2 -> forall t, In (id, t) (cc_reqQueued c2) -> t = ct_tag x2) ->
   effo P c2 (fst (disp_tail c2 id ok2 ended err3)) /\ snd (disp_tail c2 id ok2 ended err3) <> CDStuck /\
   (snd (disp_tail c2 id ok2 ended err3) = CDPanic -> err3 = CRSPanic).
 Proof.
-  intros S PL U. unfold disp_tail.
+  intros S PL Hnil HX U. unfold disp_tail.
   assert (HE : forall e, err3 = CRSStream e \/ err3 = CRSConn e -> Eall e).
   { intros e H. destruct (PL e H). apply Eall_nr; assumption. }
+  (* the Ctx dispatch holds is the one on the table under id: it is in no queue and has no other stream *)
+  assert (NH : forall x2, ok2 = Some x2 -> ~ In (ct_tag x2) (cc_inQ c2) /\ forall i, In (i, ct_tag x2) (cc_reqQueued c2) -> i = id).
+  { intros x2 E2. destruct (HX _ E2) as (G2 & Sx & NZ). split.
+    - intro J. destruct (s_inQ _ S _ J) as (y & Gy & Zy & _). rewrite G2 in Gy. inversion Gy; subst y. congruence.
+    - intros i J. destruct (s_rq _ S _ _ J) as (y & Gy & Sy & _). rewrite G2 in Gy. inversion Gy; subst y. congruence. }
+  assert (HSid : forall x2, ok2 = Some x2 -> forall x, cl_ctx_get c2 (ct_tag x2) = Some x -> ct_sid x = id).
+  { intros x2 E2 x G. destruct (HX _ E2) as (G2 & Sx & _). rewrite G2 in G. inversion G; subst x. exact Sx. }
   destruct err3 as [|e|e|]; cbn [fst snd].
   - split; [|split; [destruct (cl_gone_away _); discriminate | destruct (cl_gone_away _); discriminate]].
-    destruct ok2 as [x2|]; [|apply effo_refl]. destruct ended; [|apply effo_refl]. apply effo_finish; auto.
+    destruct ok2 as [x2|]; [|apply effo_refl]. destruct ended; [|apply effo_refl]. destruct (NH _ eq_refl). apply effo_finish; auto; try (apply (HSid _ eq_refl)).
+    intros x G. destruct (HX _ eq_refl) as (G2 & Sx & _). rewrite G2 in G. inversion G; subst x. rewrite Sx. apply Hnil; [discriminate | reflexivity | reflexivity].
   - split; [|split; [destruct (cl_gone_away _); discriminate | destruct (cl_gone_away _); discriminate]].
-    destruct ok2 as [x2|]; [|apply effo_refl]. apply effo_finish; auto.
+    destruct ok2 as [x2|]; [|apply effo_refl]. destruct (NH _ eq_refl). apply effo_finish; auto; try (apply (HSid _ eq_refl)). intros x _. apply HE. auto.
   - split; [|split; discriminate].
-    assert (E : effo P c2 (cl_set_last_err c2 e)) by apply effo_set_last_err.
-    destruct ok2 as [x2|]; [|exact E]. eapply effo_trans; [exact E|]. apply effo_finish; [assumption | auto | apply (st_ok_eff _ _ _ S (proj1 E)) |].
-    intros t I. apply (U _ eq_refl). rewrite cc_reqQueued_cl_set_last_err in I. exact I.
+    assert (E : effo P c2 (cl_set_last_err c2 e)) by (apply effo_set_last_err; first [exact Pben | destruct (PL e (or_intror eq_refl)); assumption]).
+    destruct ok2 as [x2|]; [|exact E]. eapply effo_trans; [exact E|]. destruct (NH _ eq_refl) as [N1 N2].
+    apply effo_finish; [assumption | intros x _; apply HE; auto | apply (st_ok_eff _ _ _ S (proj1 E)) | | | |].
+    + intros t I. apply (U _ eq_refl). rewrite cc_reqQueued_cl_set_last_err in I. exact I.
+    + rewrite cc_inQ_cl_set_last_err. exact N1.
+    + rewrite cc_reqQueued_cl_set_last_err. exact N2.
+    + intros x G. apply (HSid _ eq_refl x). unfold cl_ctx_get in *. rewrite cc_ctxs_cl_set_last_err in G. exact G.
   - split; [apply effo_refl | split; [discriminate | reflexivity]].
 Qed.
 
-Lemma effo_dispatch c fr : st_ok c -> an_ok c ->
+Lemma effo_dispatch c fr : st_ok c -> an_ok c -> (nil_at c fr -> Eok (sf_sid fr) CENil) ->
   effo P c (fst (cl_dispatch dec_field c fr)) /\ snd (cl_dispatch dec_field c fr) <> CDStuck /\
   (snd (cl_dispatch dec_field c fr) = CDPanic -> ~ (forall d n b, dec_field d n b <> DPanic hstate)).
 Proof.
-  intros S A. rewrite cl_dispatch_eq. destruct (disp_pre_spec c (sf_sid fr) S A) as (c0 & ok & -> & E0 & Hok).
+  intros S A Hnil. unfold nil_at in Hnil. rewrite cl_dispatch_eq. destruct (disp_pre_spec c (sf_sid fr) S A) as (c0 & ok & PRE & E0 & Hok).
+  rewrite PRE in *.
   pose proof (st_ok_eff _ _ _ S (proj1 E0)) as S0.
-  set (res0 := match ok with Some x => Some (ct_resp x) | None => None end).
+  set (res0 := match ok with Some x => Some (ct_resp x) | None => None end) in *.
   assert (E1 : effo P c0 (rs_conn (cl_read_stream dec_field c0 fr res0))) by (apply effo_read_stream; assumption).
   assert (NP : (forall d n b, dec_field d n b <> DPanic hstate) -> snd (cl_read_stream dec_field c0 fr res0) <> CRSPanic)
     by (apply read_stream_no_panic).
@@ -1362,13 +1543,20 @@ Proof.
   cbv zeta. set (c2 := match ok2 with Some x => cl_ctx_put c1 x | None => c1 end).
   assert (E2 : effo P c1 c2).
   { unfold c2. destruct ok2 as [x2|]; [|apply effo_refl]. destruct (H2 _ eq_refl) as (x & -> & V).
-    destruct (Hok _ eq_refl) as [G0 _]. apply effo_ctx_put with x; [|exact V].
+    destruct (disp_chk_finished _ _ _ _ _ _ _ K _ eq_refl) as (x0 & E0' & Fx). inversion E0'; subst x0.
+    destruct (Hok _ eq_refl) as [G0 _]. apply effo_ctx_put with x; [|exact V | exact Fx].
     rewrite (cev_tag _ _ V). unfold cl_ctx_get in *. rewrite C1. exact G0. }
   pose proof (st_ok_eff _ _ _ S1 (proj1 E2)) as S2.
   assert (U2 : forall x2, ok2 = Some x2 -> forall t, In (sf_sid fr, t) (cc_reqQueued c2) -> t = ct_tag x2).
-  { intros x2 -> t I. destruct (H2 _ eq_refl) as (x & -> & V). destruct (Hok _ eq_refl) as [_ U]. rewrite (cev_tag _ _ V).
+  { intros x2 -> t I. destruct (H2 _ eq_refl) as (x & -> & V). destruct (Hok _ eq_refl) as (_ & _ & _ & U). rewrite (cev_tag _ _ V).
     apply (rq_unique_eff' c0 c2 (sf_sid fr) (ct_tag x) (eff_trans _ _ _ _ (proj1 E1) (proj1 E2)) U t I). }
-  destruct (disp_tail_spec c2 (sf_sid fr) ok2 ended (disp_err3 fr ok2 err2) S2 (disp_err3_plain fr ok2 err2 PL2) U2) as (E3 & N3 & P3).
+  assert (HX : forall x2, ok2 = Some x2 -> cl_ctx_get c2 (ct_tag x2) = Some x2 /\ ct_sid x2 = sf_sid fr /\ sf_sid fr <> 0).
+  { intros x2 ->. destruct (H2 _ eq_refl) as (x & -> & V). destruct (Hok _ eq_refl) as (G0 & Sx & NZ & _). split; [|split; [|exact NZ]].
+    - unfold c2. rewrite cl_ctx_get_put, N.eqb_refl. rewrite (cev_tag _ _ V). unfold cl_ctx_get in *. rewrite C1, G0. reflexivity.
+    - rewrite (cev_sid _ _ V). exact Sx. }
+  assert (HN : ok2 <> None -> ended = true -> disp_err3 fr ok2 err2 = CRSNone -> Eok (sf_sid fr) CENil).
+  { intros A1 A2 A3. apply Hnil. auto. }
+  destruct (disp_tail_spec c2 (sf_sid fr) ok2 ended (disp_err3 fr ok2 err2) S2 (disp_err3_plain fr ok2 err2 PL2) HN HX U2) as (E3 & N3 & P3).
   split; [|split; [exact N3|]].
   - eapply effo_trans; [exact E0|]. eapply effo_trans; [exact E1|]. eapply effo_trans; [exact E2 | exact E3].
   - intros Q Hd. apply (NP Hd). apply HP. apply (disp_err3_panic fr ok2). apply P3. exact Q.
@@ -1385,31 +1573,39 @@ Hypothesis Pben : forall o, benign o = true -> P o.
 
 Lemma goaway_fail_spec l : forall c, st_ok c ->
   (forall id t x, In (id, t) l -> cl_ctx_get c t = Some x -> ct_sid x = id /\ Eok id CEGoAway) ->
+  (forall id t, In (id, t) l -> ~ held c t) ->
   snd (cl_goaway_fail c l) = false /\ effo P c (fst (cl_goaway_fail c l)) /\
   cc_inQ (fst (cl_goaway_fail c l)) = cc_inQ c /\ cc_reqQueued (fst (cl_goaway_fail c l)) = cc_reqQueued c /\
   (forall id t x, In (id, t) l -> cl_ctx_get c t = Some x ->
      exists x', cl_ctx_get (fst (cl_goaway_fail c l)) t = Some x' /\ answered x' = true /\ ct_finished x' = true).
 Proof.
-  induction l as [|[id tag] l IH]; intros c S HL; cbn [cl_goaway_fail].
+  induction l as [|[id tag] l IH]; intros c S HL HNH; cbn [cl_goaway_fail].
   - split; [reflexivity|]. split; [apply effo_refl|]. split; [reflexivity|]. split; [reflexivity|]. intros ? ? ? [].
   - set (c1 := ccu_open c (cc_open c - 1)%Z).
     assert (E1 : effo P c c1). { apply (effo_frame P c _ []); try reflexivity; auto. apply pending_same. reflexivity. }
     pose proof (st_ok_eff _ _ _ S (proj1 E1)) as S1.
     destruct (effo_delete_pending P Pben 0 c1 id (s_nostuck _ S1)) as [E2 F2].
     pose proof (cc_inQ_cl_delete_pending _ c1 0 [] id) as I2. pose proof (cc_reqQueued_cl_delete_pending _ c1 0 [] id) as Q2.
+    pose proof (cc_pending_cl_delete_pending' 0 [] c1 id) as P2.
     destruct (cl_delete_pending 0 [] c1 id) as [c2 stuck]. cbn [fst snd] in *. subst stuck.
     pose proof (st_ok_eff _ _ _ S1 (proj1 E2)) as S2.
     set (c3 := cl_ctx_upd c2 tag (fun x => cl_ctx_resolve (ctu_finished x true) CEGoAway)).
     assert (E02 : eff P c c2) by (eapply eff_trans; [apply E1 | apply E2]).
     assert (E3 : effo P c2 c3).
-    { apply effo_ctx_upd'. intros x2 G2. apply cev_finish_resolve. destruct (eff_ctx_back _ _ _ _ _ E02 G2) as (x0 & G0 & V0).
-      destruct (HL id tag x0 (or_introl eq_refl) G0) as [Hs He]. rewrite (cev_sid _ _ V0), Hs. exact He. }
+    { apply effo_ctx_upd_fin.
+      - intros x2 G2. apply cev_finish_resolve. destruct (eff_ctx_back _ _ _ _ _ E02 G2) as (x0 & G0 & V0).
+        destruct (HL id tag x0 (or_introl eq_refl) G0) as [Hs He]. rewrite (cev_sid _ _ V0), Hs. exact He.
+      - intro H. apply (HNH id tag (or_introl eq_refl)). apply (held_filter _ _ _ _ E02 H).
+      - rewrite P2. cbn [c1 cc_pending ccu_open]. apply (pend_del_no_tag (cc_pending c) id tag (s_pnd _ S)). intros pb J E'.
+        destruct (s_pb _ S _ J) as (_ & y & Gy & Sy). rewrite E' in Gy. destruct (HL id tag y (or_introl eq_refl) Gy) as [Hs _]. congruence. }
     pose proof (st_ok_eff _ _ _ S2 (proj1 E3)) as S3.
     assert (E03 : eff P c c3) by (eapply eff_trans; [apply E02 | apply E3]).
     assert (HL3 : forall i t x, In (i, t) l -> cl_ctx_get c3 t = Some x -> ct_sid x = i /\ Eok i CEGoAway).
     { intros i t x3 J G3. destruct (eff_ctx_back _ _ _ _ _ E03 G3) as (x0 & G0 & V0).
       destruct (HL i t x0 (or_intror J) G0) as [Hs He]. rewrite (cev_sid _ _ V0). auto. }
-    destruct (IH c3 S3 HL3) as (F & E4 & I4 & Q4 & A4).
+    assert (HNH3 : forall i t, In (i, t) l -> ~ held c3 t).
+    { intros i t J H. apply (HNH i t (or_intror J)). apply (held_filter _ _ _ _ E03 H). }
+    destruct (IH c3 S3 HL3 HNH3) as (F & E4 & I4 & Q4 & A4).
     split; [exact F|]. split; [eapply effo_trans; [exact E1|]; eapply effo_trans; [exact E2|]; eapply effo_trans; [exact E3 | exact E4]|].
     split; [rewrite I4; unfold c3; rewrite cc_inQ_cl_ctx_upd, I2; reflexivity|].
     split; [rewrite Q4; unfold c3; rewrite cc_reqQueued_cl_ctx_upd, Q2; reflexivity|].
@@ -1443,7 +1639,16 @@ Proof.
   { intros id t x2 J G2. apply filter_In in J. cbn [fst] in J. destruct J as [J L].
     destruct (s_rq _ S _ _ J) as (x & G & Hs & _). destruct (e_ctx _ _ _ E2 _ _ G) as (x2' & G2' & V2). rewrite G2 in G2'. inversion G2'; subst x2'.
     rewrite (cev_sid _ _ V2). split; [exact Hs | apply Hga; clear - L; lia]. }
-  destruct (goaway_fail_spec above c2 S2 HL) as (F & E3 & I3 & Q3 & A3).
+  assert (HNH : forall id t, In (id, t) above -> ~ held c2 t).
+  { intros id t J [H|H].
+    - apply filter_In in J. destruct J as [J _]. destruct (s_rq _ S _ _ J) as (x & G & Sx & _ & NZ & _).
+      cbn [c2 cc_inQ ccu_reqQueued c1 ccu_closeRef ccu_stateClosed ccu_goAway] in H. destruct (s_inQ _ S _ H) as (y & Gy & Zy & _). congruence.
+    - apply filter_In in J. cbn [fst] in J. destruct J as [J L]. cbn [c2 cc_reqQueued ccu_reqQueued] in H. apply in_map_iff in H.
+      destruct H as ([i u] & Hu & H). cbn in Hu. subst u. apply filter_In in H. cbn [fst] in H. destruct H as [H L'].
+      assert (i = id).
+      { destruct (s_rq _ S _ _ H) as (y & Gy & Sy & _). destruct (s_rq _ S _ _ J) as (y' & Gy' & Sy' & _). congruence. }
+      subst i. rewrite L in L'. discriminate. }
+  destruct (goaway_fail_spec above c2 S2 HL HNH) as (F & E3 & I3 & Q3 & A3).
   assert (AB : forall id t, In (id, t) (cc_reqQueued c) -> last < id ->
                exists x', cl_ctx_get (fst (cl_goaway_fail c2 above)) t = Some x' /\ answered x' = true /\ ct_finished x' = true).
   { intros id t J L. destruct (s_rq _ S _ _ J) as (x & G & _). destruct (e_ctx _ _ _ E2 _ _ G) as (x2 & G2 & _).
@@ -1468,18 +1673,21 @@ Qed.
 Hypothesis Ppanic : ~ (forall d n b, dec_field d n b <> DPanic hstate) -> P (COPanic 0).
 Hypothesis W_any : forall c c' : cconn hstate, Wok hstate c c'.
 Hypothesis V_any : forall x x', Vok x x'.
-Hypothesis Enil : Eall CENil.
 
-Lemma effo_rl_frame c fr : st_ok c -> an_ok c -> effo P c (cl_rl_frame dec_field c fr).
+Lemma effo_rl_frame c fr : st_ok c -> an_ok c ->
+  (forall c1, (sf_kind fr <> KWinUpd -> c1 = c) -> nil_at dec_field c1 fr -> Eok (sf_sid fr) CENil) ->
+  effo P c (cl_rl_frame dec_field c fr).
 Proof.
-  intros S A. unfold cl_rl_frame.
+  intros S A Hnil. unfold cl_rl_frame.
   assert (EX : forall why, effo P c (cl_rl_exit (cl_set_last_err c CEConn) why)).
-  { intro why. eapply effo_trans; [apply effo_set_last_err | apply effo_rl_exit; try exact Pben]. }
+  { intro why. apply (effo_trans _ _ (cl_set_last_err c CEConn)); [apply effo_set_last_err; first [exact Pben | discriminate] | apply effo_rl_exit; try exact Pben]. }
   destruct (fkind_eqb (sf_kind fr) KPush); [apply EX|].
   destruct (negb (cc_hdrStream c =? 0) && _); [apply EX|].
   destruct ((cc_hdrStream c =? 0) && _); [apply EX|].
   set (c1 := if fkind_eqb (sf_kind fr) KWinUpd then _ else c).
   assert (E1 : effo P c c1) by (unfold c1; destruct (fkind_eqb (sf_kind fr) KWinUpd); [apply effo_add_window | apply effo_refl]).
+  assert (Hn1 : nil_at dec_field c1 fr -> Eok (sf_sid fr) CENil).
+  { apply Hnil. intro NK. unfold c1. destruct (sf_kind fr); try reflexivity. contradiction. }
   pose proof (st_ok_eff _ _ _ S (proj1 E1)) as S1. pose proof (an_ok_effo _ _ _ A E1) as A1.
   assert (D : effo P c1 (fst (cl_dispatch dec_field c1 fr)) /\ snd (cl_dispatch dec_field c1 fr) <> CDStuck /\
               (snd (cl_dispatch dec_field c1 fr) = CDPanic -> ~ (forall d n b, dec_field d n b <> DPanic hstate)))
@@ -1498,11 +1706,13 @@ Qed.
 Lemma effo_rl_step c i : st_ok c -> an_ok c ->
   (forall fr, i = RFrame fr -> sf_kind fr = KGoAway -> sf_sid fr = 0 -> cc_netClosed c = false ->
      forall id, sf_dep fr < id -> Eok id CEGoAway) ->
+  (forall fr, i = RFrame fr -> cc_netClosed c = false ->
+     forall c1, (sf_kind fr <> KWinUpd -> sf_kind fr <> KGoAway -> c1 = c) -> nil_at dec_field c1 fr -> Eok (sf_sid fr) CENil) ->
   effo P c (cl_rl_step dec_field c i).
 Proof.
-  intros S A Hga. unfold cl_rl_step. destruct (cc_netClosed c) eqn:NC; [apply effo_rl_fail; try exact Pben|].
+  intros S A Hga Hnil. unfold cl_rl_step. destruct (cc_netClosed c) eqn:NC; [apply effo_rl_fail; try exact Pben|].
   destruct i as [fr| | |]; try apply effo_rl_fail; try exact Pben; [|apply effo_refl].
-  destruct (sf_sid fr =? 0) eqn:Z; [|apply effo_rl_frame; assumption].
+  destruct (sf_sid fr =? 0) eqn:Z; [|apply effo_rl_frame; try assumption; intros c1 H1; apply (Hnil fr eq_refl eq_refl c1); intros K1 _; apply H1, K1].
   destruct (sf_kind fr) eqn:K; try apply effo_refl.
   - (* SETTINGS *)
     destruct (cl_settings_deserialize _ _); [|apply effo_rl_fail; try exact Pben].
@@ -1512,7 +1722,8 @@ Proof.
     apply (effo_frame P c _ []); try reflexivity; auto. apply pending_same. reflexivity.
   - (* GOAWAY *)
     destruct (effo_goaway c (sf_dep fr) (Hga fr eq_refl K (proj1 (N.eqb_eq _ _) Z) eq_refl) S) as (E1 & F1 & _). destruct (cl_goaway c (sf_dep fr)) as [c1 stuck]. cbn [fst snd] in *. subst stuck.
-    eapply effo_trans; [exact E1|]. apply effo_rl_frame; [apply (st_ok_eff _ _ _ S (proj1 E1)) | apply (an_ok_effo _ _ _ A E1)].
+    eapply effo_trans; [exact E1|]. apply effo_rl_frame; [apply (st_ok_eff _ _ _ S (proj1 E1)) | apply (an_ok_effo _ _ _ A E1)|].
+    intros c2 _. apply (Hnil fr eq_refl eq_refl c2). intros _ NG. contradiction.
   - apply effo_add_window.
 Qed.
 
